@@ -80,7 +80,7 @@ def run(ctx, prop):
     out, rc, wall = ctx.tlc("Hostile.tla", "Hostile_old.cfg", workers=2)
     if "Invariant OldNoCrashNoOverAlloc is violated" not in out:
         raise MachineryError("self-test failed: the pre-fix rows of Hostile.tla no longer violate NoCrashNoOverAlloc")
-    ctx.extra["model_rows_x_magnitudes"] = 11 * 24
+    ctx.extra["model_rows_x_magnitudes"] = 12 * 24
     d = os.path.join(ctx.tmp, "hostile")
     os.makedirs(d, exist_ok=True)
     trace = os.path.join(ctx.tmp, "hostile.ndjson")
